@@ -352,6 +352,32 @@ def apply_model(sym, n, f, vals, mut_idx, st):
                     out.append((s2, (VAL, NONE)))
             return out
 
+    # ---- `[a, b, c].into_iter().try_for_each(f)`: f(a)?; f(b)?; f(c)?; Ok(()) --------------------------------------------------
+    if p == "std::iter::Iterator::try_for_each" and len(vals) == 2 and vals[1][0] in ("closure", "fnref"):
+        src = vals[0]
+        while src[0] == "call" and src[1].endswith(("IntoIterator::into_iter", "core::slice::iter", "core::array::iter")) and len(src[2]) == 1:
+            src = src[2][0]
+        if src[0] == "array" and 0 < len(src[1]) <= 8:
+            states = [st]
+            out = []
+            for el in src[1]:
+                nxt = []
+                for s0 in states:
+                    for s1, (k1, v1) in sym.apply(vals[1], [el], s0, n):
+                        if v1[0] == "adt" and v1[2] in ("Ok", "Continue"):
+                            nxt.append(s1)
+                            continue
+                        if v1[0] == "adt" and v1[2] in ("Err", "Break"):
+                            out.append((s1, (VAL, v1)))
+                            continue
+                        for s2, is_ok in fork_is(sym, s1, v1, "Ok"):
+                            if is_ok:
+                                nxt.append(s2)
+                            else:
+                                out.append((s2, (VAL, err(mk_payload(v1, "Err", "0")))))
+                states = nxt
+            return out + [(s0, (VAL, ok(UNIT))) for s0 in states]
+
     # ---- `it.map(|x| <closure with effects on captured places>).collect()` is a loop: `for x in it { v.push(f(x)) }` ------------
     if p == "std::iter::Iterator::collect" and len(vals) == 1 and vals[0][0] == "call" and vals[0][1] == "std::iter::Iterator::map" \
             and len(vals[0][2]) == 2 and vals[0][2][1][0] == "closure" and sym.inline_mut and "Vec<" in (n.get("ty") or ""):
